@@ -6,10 +6,30 @@
 // order x cross-section level x geometry) x primary lattice (particle x energy x position x
 // direction) x ALL interaction-outcome sequences with at most B deviations from the default
 // "absorb, deposit everything" (harness/loop_explore.hh).
+#include "corecel/sys/VerifHooks.hh"
 #include "harness/loop_explore.hh"
 
 using namespace celeritas;
 using namespace vf;
+
+// RNG seam (hook H2): every 32-bit word drawn by the core RNG of the running event passes
+// through rng_filter(); the explorer may replace the i-th word (i < word_cap) by one of the
+// letters below (choice 0 = keep the generator's own word).
+static Choices* g_rng_choices = nullptr;
+static unsigned g_rng_words = 0;
+static unsigned const g_rng_word_cap = 384;
+static unsigned const rng_letters[] = {0x00000001u, 0x40000000u, 0x80000000u, 0xc0000000u, 0xffffff00u};
+static unsigned int rng_filter(unsigned int w)
+{
+    if (!g_rng_choices || g_rng_words >= g_rng_word_cap)
+    {
+        ++g_rng_words;
+        return w;
+    }
+    ++g_rng_words;
+    int k = g_rng_choices->choose(6);
+    return k == 0 ? w : rng_letters[k - 1];
+}
 
 int main(int argc, char** argv)
 {
@@ -18,12 +38,31 @@ int main(int argc, char** argv)
     for (int i = 1; i + 1 < argc; ++i)
         if (std::string(argv[i]) == "--part")
             part = argv[i + 1];
-    bool const steps_part = (part == "steps");
+    bool const steps_part = (part == "steps" || part == "steps-rng");
+    bool const rng_part = (part == "rng" || part == "steps-rng");
     vf::Run R(argc, argv, steps_part ? "C05" : "C01", "c01_energy");
     bool const thorough = R.thorough();
-    int const bound = thorough ? 3 : 2;
+    int const bound = rng_part ? 1 : (thorough ? 3 : 2);
     auto configs = config_lattice(thorough);
     auto prims = primary_lattice(thorough);
+    if (rng_part)
+    {
+        // forced random words: the interaction outcomes stay at their defaults; a thinner
+        // root lattice (every 3rd configuration, 1 MeV and 100 MeV primaries from the centre)
+        celeritas::verif::g_rng = &rng_filter;
+        std::vector<ConfigCase> c2;
+        for (size_t i = 0; i < configs.size(); ++i)
+            if (has_msc(configs[i].cfg.along) || has_fluct(configs[i].cfg.along) || i % 3 == 0)
+                if (configs[i].cfg.slots != 8 && (thorough || configs[i].cfg.slots == 1 || i % 2 == 0))
+                    c2.push_back(configs[i]);
+        configs.swap(c2);
+        std::vector<PrimaryCase> p2;
+        for (auto const& p : prims)
+            if ((p.id.find(".e1.") != std::string::npos || p.id.find(".e2.") != std::string::npos)
+                && p.id.find(".p0.d0") != std::string::npos)
+                p2.push_back(p);
+        prims.swap(p2);
+    }
     uint64_t outer = 0;
     ExploreStats total;
     for (auto& cc : configs)
@@ -52,7 +91,22 @@ int main(int argc, char** argv)
             R.begin_case(root, 600);
             ExploreStats st;
             auto body_result = std::make_shared<EventRun>();
-            auto body = [&](Choices& c) { *body_result = run_event(*P, pc, c); };
+            auto body = [&](Choices& c) {
+                if (rng_part)
+                {
+                    // the explorer owns the random words; the interaction outcomes are a fixed
+                    // function of (event, track, step, particle, energy)
+                    Choices none({});
+                    HashedOutcomeChooser hc;
+                    g_rng_choices = &c;
+                    g_rng_words = 0;
+                    *body_result = run_event(*P, pc, none, 10000, &hc);
+                    g_rng_choices = nullptr;
+                    R.maxi("max_words_per_event", g_rng_words);
+                }
+                else
+                    *body_result = run_event(*P, pc, c);
+            };
             auto on_exec = [&](Choices const& c) {
                 R.count("evaluations");
                 R.count("transitions", body_result->calls);
@@ -86,7 +140,7 @@ int main(int argc, char** argv)
                     R.tag("action:" + P->action_labels.at(a));
                 R.outcome(h);
                 R.state(h);
-                if (c.deviations() > 0 && max_track > 0)
+                if (c.deviations() > 0 && (max_track > 0 || rng_part))
                     R.nontrivial(hash_mix(hash_str(root), h));
                 R.maxi("max_tracks", max_track + 1);
                 R.maxi("max_steps", P->recorder->steps.size());
